@@ -83,4 +83,50 @@ def release (a : State) (t : Table) : State × Table :=
 
 def allNodes (t : Table) : List Node := t.buckets.flatten
 
+/-! ### `ArenaHashBase::_swap` at the level of the two C++ objects
+`Table` above abstracts `_data == _embedded` into `data = none`, which hides the one delicate point of `_swap`: after the
+field-wise `std::swap` a `_data` that pointed to the own embedded bucket points into the OTHER object and must be redirected.
+Here the pointer is explicit: `embA` / `embB` = `&this->_embedded` / `&other._embedded`, `heap` = an arena array whose
+contents (`heapBuckets`) travel with the pointer. -/
+inductive DataPtr where
+  | embA | embB | heap (l : Loc)
+  deriving DecidableEq, Repr
+
+structure Raw where
+  data : DataPtr
+  /-- chain hanging off `_embedded[0]` -/
+  embedded : List Node := []
+  /-- contents of the heap array `_data` points to (meaningful when `data = heap _`) -/
+  heapBuckets : List (List Node) := []
+  size : Nat := 0
+  count : Nat := 1
+  grow : Nat := 1
+  rcp : Nat := 1
+  shift : Nat := 0
+  primeIndex : Nat := 0
+  deriving Repr
+
+/-- the bucket array an object sees through its `_data`, in the world of the two objects `(a, b)` -/
+def bucketsOf (a b : Raw) (x : Raw) : List (List Node) :=
+  match x.data with
+  | .embA => [a.embedded]
+  | .embB => [b.embedded]
+  | .heap _ => x.heapBuckets
+
+/-- `this->_swap(other)`: `std::swap` of every member (including `_embedded[0]`), then the two INDEPENDENT fix-ups
+`if (_data == other._embedded) _data = _embedded;  if (other._data == _embedded) other._data = other._embedded;` -/
+def swapRaw (a b : Raw) : Raw × Raw :=
+  let a1 := b            -- every field of `this` now holds what `other` held …
+  let b1 := a            -- … and vice versa
+  let a2 := if a1.data = .embB then { a1 with data := .embA } else a1
+  let b2 := if b1.data = .embA then { b1 with data := .embB } else b1
+  (a2, b2)
+
+/-- the variant with `else if` for the second fix-up (what a careless edit produces) -/
+def swapRawElseIf (a b : Raw) : Raw × Raw :=
+  let a1 := b
+  let b1 := a
+  if a1.data = .embB then ({ a1 with data := .embA }, b1)
+  else (a1, if b1.data = .embA then { b1 with data := .embB } else b1)
+
 end AsmjitVerif.Hash
